@@ -108,6 +108,10 @@ BURN = {
     "frac0.8": {"n_burn_in_iter_frac": 0.8},
     "count1": {"n_burn_in_iter": 1, "n_burn_in_iter_frac": None},
     "count_n-1": None,  # n_iter - 1, resolved per case
+    # an explicit count given while the default ratio (0.5) stays in the settings: documented (FutureWarning) as
+    # "n_burn_in_iter will always have priority over n_burn_in_iter_frac"
+    "count1_ratio_kept": {"n_burn_in_iter": 1},
+    "count_n-1_ratio_kept": None,  # n_iter - 1 with the default ratio kept, resolved per case
 }
 ANNEALING = {
     "off": {},
@@ -294,11 +298,14 @@ def algo_kwargs(case):
     kw = {"n_iter": n_iter}
     if s["burn"] == "count_n-1":
         kw.update({"n_burn_in_iter": n_iter - 1, "n_burn_in_iter_frac": None})
+    elif s["burn"] == "count_n-1_ratio_kept":
+        kw.update({"n_burn_in_iter": n_iter - 1})
     else:
         kw.update(BURN[s["burn"]])
     kw.update(copy.deepcopy(ANNEALING[s["annealing"]]))
     # reference: a count is taken as is, a ratio is truncated to an integer number of iterations
     n_burn = kw["n_burn_in_iter"] if kw.get("n_burn_in_iter") is not None else int(math.floor(kw["n_burn_in_iter_frac"] * n_iter + 1e-9))
+    # (a count wins over a ratio, whether the ratio is the default one left in the settings or an explicit one)
     return kw, n_burn
 
 
@@ -690,6 +697,68 @@ def check_mcmc(case, spec, model, cohort, keys, returned, rec, n_burn, variables
 # ------------------------------------------------------------------------------------------
 # enumeration
 
+# ------------------------------------------------------------------------------------------
+# scipy_minimize with several workers (separate non-daemonic interpreter; recording inside the joblib workers)
+
+NJOBS_MODELS = {"quick": ["logistic_d2_s1_diag", "joint_d1_s0_scalar"], "thorough": ["logistic_d2_s1_diag", "joint_d1_s0_scalar", "linear_d2_s1_diag"]}
+NJOBS_COHORTS = [["c", "a", "b"], ["e", "d", "a"], ["b", "c", "a", "e"], ["c", "a", "d", "e", "b"], ["a", "b"]]
+
+
+def check_njobs(acc, model_name, n_jobs_list):
+    """model.personalize(scipy_minimize, n_jobs=k), k >= 2: the identifier -> estimate binding.  Every optimisation is recorded
+    where it runs (lmc/site_hooks/sitecustomize.py, inherited by the joblib workers) with the identifier it was run for; the
+    estimate returned under identifier i must be a point whose objective ON i's OWN DATA (fresh State built here) is the value
+    the optimiser reported for i."""
+    from . import c07
+
+    spec = MODEL_SPECS[model_name]
+    res = c07.njobs_subprocess(model_name, NJOBS_COHORTS, n_jobs_list)
+    model = build_model(spec)
+    for nj in n_jobs_list:
+        if nj > 1 and res["effective"][str(nj)] != nj:
+            raise RuntimeError(f"harness: joblib would run n_jobs={nj} with {res['effective'][str(nj)]} workers")
+        for c, ids in enumerate(NJOBS_COHORTS):
+            got = res["results"][str(nj)][c]
+            case = {"part": "njobs", "model": model_name, "ids": ids, "n_jobs": nj, "all_n_jobs": n_jobs_list}
+            acc.evaluation()
+            acc.count("cases scipy_minimize with n_jobs")
+            site = "scipy_minimize[n_jobs>1]" if nj > 1 else "scipy_minimize[n_jobs=1, separate interpreter]"
+            if nj > 1:
+                acc.nontriv(digest(case))
+            if "exc" in got:
+                acc.violation(f"{site}|raises {got['exc'][0]}|", got["exc"][1], case)
+                acc.outcome(f"njobs:{got['exc'][0]}")
+                continue
+            if got["order"] != list(ids):
+                acc.violation(f"{site}|keys are not the input identifiers in input order|", f"{got['order']} for {ids}", case)
+                continue
+            starts = got.get("starts") or []
+            by_id = {s_["patient_id"]: s_ for s_ in starts if s_.get("patient_id") is not None}
+            if len(starts) != len(ids) or sorted(by_id) != sorted(ids):
+                acc.violation(f"{site}|not exactly one optimisation per individual|",
+                              f"recorded optimisations for {[s_.get('patient_id') for s_ in starts]}, cohort {ids}", case)
+                continue
+            ok = True
+            for i in ids:
+                p = got["params"][i]
+                flat = [v for vals in p.values() for v in vals]
+                if not all(math.isfinite(v) for v in flat):
+                    acc.violation(f"{site}|non-finite estimate|", f"{i}: {p}", case)
+                    ok = False
+                    continue
+                f_own = c07.objective(model, spec, i, p)
+                f_rep = by_id[i]["fun"]
+                # same float32 graph evaluated in another process on the same point: a few ulps of a sum of O(10) terms
+                if not abs(f_own - f_rep) <= 1e-4 * (1.0 + abs(f_rep)):
+                    others = {j: c07.objective(model, spec, i, got["params"][j]) for j in ids if j != i}
+                    whose = [j for j, f in others.items() if abs(f - f_rep) <= 1e-4 * (1.0 + abs(f_rep))]
+                    acc.violation(f"{site}|estimate returned under an identifier is not the optimum found for that individual|",
+                                  f"'{i}' of {ids} (n_jobs={nj}): objective of the returned point on {i}'s data {f_own!r}, optimiser reported {f_rep!r}"
+                                  + (f"; the estimate returned under {whose} matches it" if whose else ""), case)
+                    ok = False
+            acc.outcome(f"njobs:{'ok' if ok else 'problem'}:n_jobs={nj}:cohort of {len(ids)}")
+
+
 def seeds_of(seed):
     return sorted({0, 1, int(seed)})
 
@@ -697,8 +766,10 @@ def seeds_of(seed):
 def mcmc_cases(tier, seed):
     ann = list(ANNEALING) if tier == "thorough" else QUICK_ANNEALING
     for algo, n_iter, burn, a, s in itertools.product(("mean_posterior", "mode_posterior"), N_ITER[tier], BURN, ann, seeds_of(seed)):
-        if n_iter == 2 and burn in ("count_n-1", "frac0.8"):
+        if n_iter == 2 and burn in ("count_n-1", "frac0.8", "count_n-1_ratio_kept"):
             continue  # same number of burn-in iterations as count1 / frac0.5
+        if tier == "quick" and burn.endswith("ratio_kept") and (a != "off" or s != 0):
+            continue  # quick tier: the count-over-default-ratio settings without annealing, first seed
         yield {"algo": algo, "settings": {"n_iter": n_iter, "burn": burn, "annealing": a}, "seed": s}
 
 
@@ -742,7 +813,8 @@ def shards(tier, seed):
     # simplest first: small cohorts, sampling before optimisation
     order = [m for m, _ in model_sources(tier)]
     out.sort(key=lambda s: (len(s.get("cohort", "xxx")), order.index(s["model"]), s["source"] != "loaded", s.get("cohort", []), s["part"] != "mcmc"))
-    return out
+    njobs = [{"part": "njobs", "model": m, "n_jobs": [1, 2] if tier == "quick" else [1, 2, 3], "tier": tier} for m in NJOBS_MODELS[tier]]
+    return out[:1] + njobs + out[1:]
 
 
 def shard_cases(shard):
@@ -778,6 +850,9 @@ def config_key(case):
 def run_shard(shard):
     torch.set_num_threads(1)
     acc = Acc()
+    if shard["part"] == "njobs":
+        check_njobs(acc, shard["model"], shard["n_jobs"])
+        return acc.to_dict()
     for case in shard_cases(shard):
         res = run_case(case)
         acc.evaluation()
@@ -795,6 +870,10 @@ def run_shard(shard):
 
 
 def replay(case):
+    if case.get("part") == "njobs":
+        acc = Acc()
+        check_njobs(acc, case["model"], case["all_n_jobs"])
+        return [{"signature": v["signature"], "message": v["message"]} for v in acc.violations.values()]
     res = run_case(case)
     return [{"signature": s, "message": m} for s, m in res["problems"]]
 
